@@ -270,6 +270,66 @@ def protected(sc: dict) -> List[str]:
     return [n for n in names if n not in reach]
 
 
+# blocks for which the cut theorem applies as is (certificate must accept); the others are class-specific rules or
+# second-stage lists: covered by the element lemmas and by this rig's oracle only
+CERTIFIABLE = {"sw1_uplink_disabled", "sw2_uplink_disabled", "sw2_b_port_disabled", "b_nic_disabled", "a_nic_disabled",
+               "missing_link", "removed_link", "sw2_off", "sw1_off", "b_off", "router_deny_anyany", "router_port_a_disabled",
+               "router_port_b_disabled", "router_off", "fw_first_stage_deny", "fw_first_stage_empty", "fw_port_a_disabled",
+               "fw_port_b_disabled", "fw_off"}
+
+
+def roles_for(sc: dict) -> Dict[str, str]:
+    m = sc["block"]
+    return {
+        "sw1_uplink_disabled": {"SW1": "ifaceDown"}, "sw2_uplink_disabled": {"SW2": "frozen"},
+        "sw2_b_port_disabled": {"SW2": "ifaceDown"}, "b_nic_disabled": {"B": "frozen"}, "b_off": {"B": "frozen"},
+        "a_nic_disabled": {"A": "ifaceDown", "C": "ifaceDown"}, "missing_link": {}, "removed_link": {},
+        "sw2_off": {"SW2": "frozen"}, "sw1_off": {"SW1": "frozen"}, "router_off": {"R1": "routerOff"}, "fw_off": {"FW": "frozen"},
+        "router_port_a_disabled": {"R1": "frozen"}, "router_port_b_disabled": {"R1": "ifaceDown"},
+        "fw_port_a_disabled": {"FW": "frozen"}, "fw_port_b_disabled": {"FW": "ifaceDown"},
+        "fw_first_stage_deny": {"FW": "fwDeny"}, "fw_first_stage_empty": {"FW": "fwDeny"}, "fw_second_stage_deny": {"FW": "fwDeny"},
+    }.get(m, {"R1": "routerDeny"} if m.startswith("router_deny") else {})
+
+
+def topo_lines(sc: dict, sim, N, prot: List[str]) -> List[str]:
+    """The real network after the block, as protocol lines for the driver's cut certificate."""
+    from primaite.simulator.network.hardware.node_operating_state import NodeOperatingState
+    from primaite.simulator.network.hardware.nodes.network.firewall import Firewall
+    from primaite.simulator.network.hardware.nodes.network.router import Router
+    from primaite.simulator.network.hardware.nodes.network.switch import Switch
+    from harness.rigs import acl as acl_rig
+    names = sorted(N)
+    idx = {h: i for i, h in enumerate(names)}
+    roles = roles_for(sc)
+    lines = ["reset", "t-new"]
+    for h in names:
+        n = N[h]
+        kind = "firewall" if isinstance(n, Firewall) else "router" if isinstance(n, Router) else "switch" if isinstance(n, Switch) else "host"
+        role = roles.get(h, "interior")
+        side = (h not in prot) or role != "interior"  # blocking elements belong to `side`
+        lines.append(f"t-node {kind} {1 if n.operating_state == NodeOperatingState.ON else 0} {1 if side else 0} {role}")
+    for h in names:
+        n = N[h]
+        for p in sorted(n.network_interface):
+            lines.append(f"t-iface {idx[h]} {1 if n.network_interface[p].enabled else 0}")
+        acls = {}
+        if isinstance(n, Router):
+            acls["router"] = n.acl
+        if isinstance(n, Firewall):
+            acls.update({"intIn": n.internal_inbound_acl, "intOut": n.internal_outbound_acl, "dmzIn": n.dmz_inbound_acl,
+                         "dmzOut": n.dmz_outbound_acl, "extIn": n.external_inbound_acl, "extOut": n.external_outbound_acl})
+        for name, a in acls.items():
+            lines.append(f"t-acl {idx[h]} {name} {a.implicit_action.name}")
+            for pos, r in acl_rig.read_rules(a):
+                lines.append(f"t-rule {idx[h]} {name} " + acl_rig.rule_line(pos, r)[len("add "):])
+    for link in sim.network.links.values():
+        a, b = link.endpoint_a, link.endpoint_b
+        lines.append(f"t-wire {idx[a._connected_node.config.hostname]} {a.port_num - 1} "
+                     f"{idx[b._connected_node.config.hostname]} {b.port_num - 1}")
+    lines.append("t-certify")
+    return lines
+
+
 def apply_block(sc: dict, sim, N, info, timestep_fn):
     from primaite.simulator.network.hardware.nodes.network.router import ACLAction
     m = sc["block"]
@@ -498,10 +558,11 @@ def _run_once(sc: dict, with_block: bool, post_ops: List[str], wrappers: bool, p
             apply_block(sc, sim, N, info, tick)
         tick()
         at_block = {h: node_obs(N[h]) for h in prot}
+        topo = topo_lines(sc, sim, N, prot) if with_block else []
         for op in post_ops:
             guarded(op)
         tick()
-    return {"obs": {h: node_obs(N[h]) for h in prot}, "at_block": at_block, "log": log, "errors": errors,
+    return {"obs": {h: node_obs(N[h]) for h in prot}, "at_block": at_block, "topo": topo, "log": log, "errors": errors,
             "frame_viol": frame_viol}
 
 
@@ -533,7 +594,8 @@ def run_scenario(sc: dict, control: bool = True) -> dict:
             violations.append({"kind": "protected-state-changed", "node": h, "diff": d})
     for v in sorted(set(attack["frame_viol"])):
         violations.append({"kind": "denied-frame-not-inert", "what": v})
-    res = {"violations": violations, "log": attack["log"], "errors": attack["errors"], "nontrivial": None, "protected": prot}
+    res = {"violations": violations, "log": attack["log"], "errors": attack["errors"], "nontrivial": None, "protected": prot,
+           "topo": attack["topo"]}
     if control:
         sc2 = dict(sc, missing_links=[])
         ctl = _run_once(sc2, False, sc["post_ops"], False, prot)
@@ -583,8 +645,28 @@ def run(ctx: Ctx):
     for k in range(ctx.scale(45, 900)):
         scenarios.append((f"gen:{k}", gen_scenario(rng, max_ops=ctx.scale(6, 10))))
     clean = 0
-    for name, sc in scenarios:
-        res = run_scenario(sc, control=True)
+    results = [(name, sc, run_scenario(sc, control=True)) for name, sc in scenarios]
+    from harness.lib.core import run_driver
+    all_lines: List[str] = []
+    for _, _, res in results:
+        all_lines += res["topo"]
+    answers = run_driver("drv_c06", all_lines)
+    pos, cert_bad = 0, []
+    for name, sc, res in results:
+        chunk = answers[pos:pos + len(res["topo"])]
+        pos += len(res["topo"])
+        if "bad-op" in chunk:
+            raise RuntimeError(f"driver rejected a topology line of {name}")
+        res["certificate"] = chunk[-1]
+        ok = chunk[-1] == "certified"
+        ctx.count(f"net:{'certified' if ok else 'uncertified'}:{sc['block']}")
+        if sc["block"] in CERTIFIABLE and not ok:
+            cert_bad.append(f"{name} {sc['family']}/{sc['block']}: {chunk[-1]}")
+        if sc["block"] not in CERTIFIABLE and ok:
+            cert_bad.append(f"{name} {sc['family']}/{sc['block']}: certified although the block is class-specific")
+    ctx.oblige("rig:R-net the proved cut certificate accepts the real post-block network", "correspondence", not cert_bad,
+               "; ".join(cert_bad[:5]))
+    for name, sc, res in results:
         ctx.cov["traces_validated_against_impl"] += 1
         ctx.case(sc, bool(res["nontrivial"]))
         ctx.count(f"net:family:{sc['family']}")
